@@ -5,7 +5,6 @@ from typing import Any, Callable
 from . import errno
 from pycoin.coins.SolutionChecker import ScriptError
 
-from .flags import VERIFY_MINIMALDATA
 
 
 def do_OP_VERIFY(vm: Any) -> None:
@@ -210,12 +209,7 @@ def do_OP_NOT(vm: Any) -> None:
     vm.append(vm.bool_to_script_bytes(not pop_check_bounds(vm)))
 
 
-def do_OP_0NOTEQUAL(vm: Any) -> None:
-    vm.push_int(
-        vm.bool_from_script_bytes(
-            vm.pop(), require_minimal=vm.flags & VERIFY_MINIMALDATA
-        )
-    )
+do_OP_0NOTEQUAL = make_unary_num_op(lambda x: 1 if x else 0)
 
 
 """
